@@ -60,6 +60,21 @@ def jobs_for(draw, cfg, max_teams=5, max_size=3):
     return job
 
 
+@st.composite
+def job_with_shape(draw, cfg, op, sizes):
+    """A job of a GIVEN operation and team-size shape (values, outcome and options drawn): symmetric workloads - several threads doing the
+    same kind of call on lobbies of the same shape - are what servers run, and what a one-slot memo keyed by a shape-derived quantity needs."""
+    opts = draw(gen.call_options(cfg))
+    tau_eff = cfg["tau"] if opts.get("tau") is None else opts["tau"]
+    teams, _, _ = draw(gen.team_values(cfg, list(sizes), tau_eff=tau_eff))
+    job = {"op": op, "teams": teams}
+    if op == "rate":
+        classes = draw(gen.weak_orders(len(teams)))
+        frag, _ = draw(gen.encodings(classes, kinds=["int", "float", "scores", "omitted", "mixed"]))
+        job["call"] = dict(frag, **{k: v for k, v in opts.items() if v is not None})
+    return job
+
+
 def opt_sig(job):
     c = job.get("call", {})
     return (job["op"], c.get("tau") is not None and c.get("tau"), c.get("limit_sigma"))
@@ -298,7 +313,13 @@ def check_interleaving(case, ctx):
 def interleaving_cases(draw, min_pre=None):
     cfg = draw(gen.configs())
     k = draw(st.integers(2, 4))
-    jobs = [draw(jobs_for(cfg, max_teams=3, max_size=2)) for _ in range(k)]
+    if draw(st.integers(0, 2)) == 0:
+        # symmetric workload: one or two operations on lobbies of one or two shapes
+        ops = draw(st.lists(st.sampled_from(OPS), min_size=1, max_size=2))
+        shapes_ = draw(st.lists(gen.shapes(max_teams=3, max_size=2), min_size=1, max_size=2))
+        jobs = [draw(job_with_shape(cfg, draw(st.sampled_from(ops)), draw(st.sampled_from(shapes_)))) for _ in range(k)]
+    else:
+        jobs = [draw(jobs_for(cfg, max_teams=3, max_size=2)) for _ in range(k)]
     # make sure at least one job is a rate call with a per-call option in most cases
     if draw(st.integers(0, 3)) > 0:
         j = jobs[0]
